@@ -16,16 +16,16 @@ import (
 
 	"verif/lib/schedmc"
 	"verif/lib/vr"
-	vsync "verif/shim/vsync"
 	"verif/shim/vsched"
+	vsync "verif/shim/vsync"
 )
 
 // tracker is the harness-side bookkeeping behind the monitor (plain fields: only one
 // controlled thread runs at a time and the monitor runs between steps).
 type tracker struct {
 	w        *utils.WaterMark
-	begun    map[uint64]int  // Begin(i) returned, legit (DoneUntil < i when invoked)
-	doneInv  map[uint64]int  // Done(i) invoked
+	begun    map[uint64]int // Begin(i) returned, legit (DoneUntil < i when invoked)
+	doneInv  map[uint64]int // Done(i) invoked
 	lastDU   uint64
 	waitViol string
 	maxIdx   uint64
@@ -98,10 +98,11 @@ func (t *tracker) monitor() (string, string) {
 }
 
 type scenario struct {
-	name  string
-	build func(t *tracker) []func()
-	init  uint64 // initial doneUntil/lastIndex (as after recovery), 0 = fresh
-	win   int
+	name       string
+	build      func(t *tracker) []func()
+	init       uint64 // initial doneUntil/lastIndex (as after recovery), 0 = fresh
+	win        int
+	quickBound int // preemption bound in the quick tier (0 = default 2)
 }
 
 // committer mimics the oracle: timestamps handed out and Begin called under a lock,
@@ -167,26 +168,26 @@ func scripted(scripts ...func(t *tracker) func()) func(t *tracker) []func() {
 
 func B(i ...uint64) call { return call{"B", i} }
 func D(i ...uint64) call { return call{"D", i} }
-func W(i uint64) call   { return call{"W", []uint64{i}} }
+func W(i uint64) call    { return call{"W", []uint64{i}} }
 
 func scenarios(thorough bool) []scenario {
 	s := []scenario{
-		{"oracle-2x1+waiter", oracleScenario(2, 1, true), 0, 4},
-		{"oracle-2x2", oracleScenario(2, 2, false), 0, 4},
-		{"oracle-2x2-recovered", oracleScenario(2, 2, false), 2, 4},
-		{"oracle-2x3-rebuild", oracleScenario(2, 3, false), 0, 4},
-		{"scripts-B1D1|B2D2|W2", scripted(script(B(1), D(1)), script(B(2), D(2)), script(W(2))), 0, 4},
-		{"scripts-B1D1|B6D6|W6", scripted(script(B(1), D(1)), script(B(6), D(6)), script(W(6))), 0, 4},
-		{"scripts-many", scripted(script(B(1, 2), D(2, 1)), script(B(3), D(3)), script(W(3))), 0, 4},
-		{"scripts-rebuild-race", scripted(script(B(2), D(2)), script(B(9), D(9)), script(B(3), D(3))), 0, 4},
+		{"oracle-2x1+waiter", oracleScenario(2, 1, true), 0, 4, 0},
+		{"oracle-2x2", oracleScenario(2, 2, false), 0, 4, 0},
+		{"oracle-2x2-recovered", oracleScenario(2, 2, false), 2, 4, 0},
+		{"oracle-2x3-rebuild", oracleScenario(2, 3, false), 0, 4, 0},
+		{"scripts-B1D1|B2D2|W2", scripted(script(B(1), D(1)), script(B(2), D(2)), script(W(2))), 0, 4, 0},
+		{"scripts-B1D1|B6D6|W6", scripted(script(B(1), D(1)), script(B(6), D(6)), script(W(6))), 0, 4, 1},
+		{"scripts-many", scripted(script(B(1, 2), D(2, 1)), script(B(3), D(3)), script(W(3))), 0, 4, 1},
+		{"scripts-rebuild-race", scripted(script(B(2), D(2)), script(B(9), D(9)), script(B(3), D(3))), 0, 4, 1},
 	}
 	if thorough {
 		s = append(s,
-			scenario{"oracle-3x1+waiter", oracleScenario(3, 1, true), 0, 4},
-			scenario{"oracle-3x2", oracleScenario(3, 2, false), 0, 4},
-			scenario{"oracle-2x3+waiter", oracleScenario(2, 3, true), 0, 4},
-			scenario{"scripts-B1D1B5D5|B2D2B6D6|W6", scripted(script(B(1), D(1), B(5), D(5)), script(B(2), D(2), B(6), D(6)), script(W(6))), 0, 4},
-			scenario{"scripts-default-window", scripted(script(B(1), D(1)), script(B(2), D(2)), script(W(2))), 0, 0},
+			scenario{"oracle-3x1+waiter", oracleScenario(3, 1, true), 0, 4, 0},
+			scenario{"oracle-3x2", oracleScenario(3, 2, false), 0, 4, 0},
+			scenario{"oracle-2x3+waiter", oracleScenario(2, 3, true), 0, 4, 0},
+			scenario{"scripts-B1D1B5D5|B2D2B6D6|W6", scripted(script(B(1), D(1), B(5), D(5)), script(B(2), D(2), B(6), D(6)), script(W(6))), 0, 4, 0},
+			scenario{"scripts-default-window", scripted(script(B(1), D(1)), script(B(2), D(2)), script(W(2))), 0, 0, 0},
 		)
 	}
 	return s
@@ -258,15 +259,19 @@ func main() {
 	total := r.RunSharded(vr.Workers(), func(sh vr.ShardInfo, p *vr.Partial) {
 		runtime.GOMAXPROCS(1) // hand-offs between controlled threads are cheapest on one P
 		for _, sc := range scs {
-			schedmc.Explore(setupFor(sc), schedmc.Options{Name: sc.name, Bound: bound, Exclusive: true}, sh, p, r.Expired)
+			b := bound
+			if r.Quick() && sc.quickBound > 0 {
+				b = sc.quickBound
+			}
+			schedmc.Explore(setupFor(sc), schedmc.Options{Name: sc.name, Bound: b, Exclusive: true}, sh, p, r.Expired)
 		}
 	})
+	perScenario := map[string]int64{}
 	for k, v := range total.Counters {
-		if strings.HasPrefix(k, "max_shard_wall") {
-			fmt.Printf("%s=%d ", k[len("max_shard_wall_ms_"):], v)
+		if strings.HasPrefix(k, "exec:") {
+			perScenario[k[5:]] = v
 		}
 	}
-	fmt.Println()
 	r.RequireOutcomes(total.Card("outcomes"), 2)
 	var names []string
 	for _, sc := range scs {
@@ -283,8 +288,8 @@ func main() {
 		Validated:   total.Counters["validated_replays"] + total.Counters["executions"],
 		Exhaustive:  !total.TimedOut,
 		Outcomes:    total.Card("outcomes"),
-		Bounds:      map[string]any{"preemption_bound": bound, "scenarios": names},
-		Extra:       map[string]any{"schedules": total.Counters["executions"], "scheduling_steps": total.Counters["steps"], "max_decisions_per_schedule": total.Counters["max_decisions"]},
+		Bounds:      map[string]any{"preemption_bound": bound, "quick_bound_1_for_3_thread_scripts": r.Quick(), "scenarios": names},
+		Extra:       map[string]any{"schedules": total.Counters["executions"], "scheduling_steps": total.Counters["steps"], "max_decisions_per_schedule": total.Counters["max_decisions"], "schedules_per_scenario": perScenario},
 		Assumptions: []string{"sequentially consistent atomics (Go memory model for sync/atomic)", "states = scheduler steps at which the monitor was evaluated (the stateless search does not deduplicate states)",
 			"each schedule is executed on fresh objects from its decision sequence; failing schedules are re-executed and must fail identically"},
 	})
